@@ -6,8 +6,8 @@ import Mustache.Proofs.VersionsBasic
 * every stamp of a populated archetype is `≤ w`; the archetype-level stamp dominates the stamps of the
   chunks in range;
 * `last_j = none ∨ last_j < w`;
-* `pending j e c` (for a checked component the entity has, in an archetype matching `j`) implies that the
-  stamp of the entity's chunk is newer than `last_j`;
+* `pending j e c` (for a checked component the entity has, in an archetype matching `j` and a chunk the
+  job's constant chunk filter accepts) implies that the stamp of the entity's chunk is newer than `last_j`;
 * a chunk stamp of a checked component newer than `last_j` implies `touched j a k`; a job that never had
   work has every chunk in range touched;
 * rows are duplicate-free across archetypes and below the ordinal counter.
@@ -29,8 +29,8 @@ structure Inv (s : State) : Prop where
       k * a.cs < a.ents.length → a.cst k c ≤ a.gst c
   pend : ∀ (j : Nat) (J : Job) (ai : Nat) (a : Arch) (i : Nat) (e : Ent) (c : Comp) (L : Ver),
       s.jobs[j]? = some J → s.archs[ai]? = some a → a.ents[i]? = some e →
-      J.reqOk a = true → c ∈ J.check → c ∈ a.mask → s.pending j e c = true →
-      J.last = some L → L < a.cst (i / a.cs) c
+      J.reqOk a = true → J.chunkOk (i / a.cs) = true → c ∈ J.check → c ∈ a.mask →
+      s.pending j e c = true → J.last = some L → L < a.cst (i / a.cs) c
   touch : ∀ (j : Nat) (J : Job) (ai : Nat) (a : Arch) (k : Nat) (c : Comp) (L : Ver),
       s.jobs[j]? = some J → s.archs[ai]? = some a → J.reqOk a = true →
       k * a.cs < a.ents.length → c ∈ J.check → c ∈ a.mask → J.last = some L → L < a.cst k c →
@@ -168,10 +168,11 @@ theorem writeAt_inv {s : State} (h : Inv s) {ai i : Nat} {a0 : Arch} {e : Ent} (
       · simp only [hc, and_false, if_false]
         exact h.cstLe x a0 k c ha0 hk
     · exact h.cstLe x a' k c hx' hk
-  · intro j J x a' i1 e1 c L hj hx h1 hreq hcc hcm hp hl
+  · intro j J x a' i1 e1 c L hj hx h1 hreq hck hcc hcm hp hl
     rw [hjobs] at hj
     obtain ⟨a, hxa, hae, hacs, hamask, hmono, hnew⟩ := hold x a' hx
     rw [hae] at h1
+    rw [hacs] at hck
     have hreq' : J.reqOk a = true := by
       simpa only [Job.reqOk, hamask] using hreq
     rw [hamask] at hcm
@@ -187,7 +188,7 @@ theorem writeAt_inv {s : State} (h : Inv s) {ai i : Nat} {a0 : Arch} {e : Ent} (
         exact h.lastLt j J L hj hl
       · exact absurd rfl hne
     · simp only [hec, if_false] at hp
-      have := h.pend j J x a i1 e1 c L hj hxa h1 hreq' hcc hcm hp hl
+      have := h.pend j J x a i1 e1 c L hj hxa h1 hreq' hck hcc hcm hp hl
       have := hmono (i1 / a.cs) c
       omega
   · intro j J x a' k c L hj hx hreq hk hcc hcm hl hlt
